@@ -595,6 +595,69 @@ func (pc *purityCtx) once(req string) (string, string) {
 	return strings.TrimSpace(so.String()), se.String()
 }
 
+// editInPlace changes the library value gp (built from p) in place, keeping its shape, and returns the
+// description p2 of the edited policy.
+func editInPlace(p *vd.Policy, gp *seccomp.Policy, seed int64) (*vd.Policy, string) {
+	rng := rand.New(rand.NewSource(seed))
+	p2 := *p
+	p2.Groups = make([]vd.Group, len(p.Groups))
+	for i, g := range p.Groups {
+		ng := vd.Group{Action: g.Action, Names: append([]string(nil), g.Names...)}
+		for _, nc := range g.WithConds {
+			ng.WithConds = append(ng.WithConds, vd.NameConds{Name: nc.Name, Conds: append([]vd.Cond(nil), nc.Conds...)})
+		}
+		p2.Groups[i] = ng
+	}
+	used := map[string]bool{}
+	for _, g := range p.Groups {
+		for _, n := range g.Names {
+			used[n] = true
+		}
+		for _, nc := range g.WithConds {
+			used[nc.Name] = true
+		}
+	}
+	// candidates: a plain name, or a condition
+	type site struct{ g, i, c int }
+	var names, conds []site
+	for gi, g := range p.Groups {
+		for i := range g.Names {
+			names = append(names, site{gi, i, -1})
+		}
+		for i, nc := range g.WithConds {
+			for c := range nc.Conds {
+				conds = append(conds, site{gi, i, c})
+			}
+		}
+	}
+	if len(conds) > 0 && (len(names) == 0 || rng.Intn(2) == 0) {
+		st := conds[rng.Intn(len(conds))]
+		c := &p2.Groups[st.g].WithConds[st.i].Conds[st.c]
+		switch rng.Intn(3) {
+		case 0:
+			c.Val = vd.Operand(rng)
+		case 1:
+			c.Arg = (c.Arg + 1 + uint32(rng.Intn(5))) % 6
+		default:
+			c.Op = vd.Ops[rng.Intn(len(vd.Ops))]
+		}
+		gc := &gp.Syscalls[st.g].NamesWithCondtions[st.i].Conditions[st.c]
+		gc.Value, gc.Argument, gc.Operation = c.Val, c.Arg, seccomp.Operation(c.Op)
+		return &p2, fmt.Sprintf("condition %d of entry %d in group %d", st.c, st.i, st.g)
+	}
+	if len(names) > 0 {
+		st := names[rng.Intn(len(names))]
+		for _, n := range vd.TableNames(p.Arch) {
+			if !used[n] {
+				p2.Groups[st.g].Names[st.i] = n
+				gp.Syscalls[st.g].Names[st.i] = n
+				return &p2, fmt.Sprintf("name %d of group %d renamed to %s", st.i, st.g, n)
+			}
+		}
+	}
+	return nil, ""
+}
+
 func (r *runner) onePurity(pc *purityCtx, id string, p *vd.Policy, k, g int, processes bool) bool {
 	req := p.Request()
 	purReq := fmt.Sprintf("PUR %d %d %s", k, g, req)
@@ -631,6 +694,22 @@ func (r *runner) onePurity(pc *purityCtx, id string, p *vd.Policy, k, g int, pro
 	}
 	dc := deepCopy(&snapshot)
 	repCopy := compileValue(&dc, p, useHook)
+	// (a2) template reuse: edit a *copy of the compiled value* in place without changing its shape (rename a
+	// syscall, change a condition) and compile again: the result must be that of a freshly built equal value
+	if ok0 := strings.HasPrefix(firstReply, "OK "); ok0 {
+		tmpl := deepCopy(&snapshot)
+		compileValue(&tmpl, p, useHook) // the template has been compiled once
+		if p2, what := editInPlace(p, &tmpl, int64(len(req))+int64(k)); p2 != nil {
+			again := compileValue(&tmpl, p2, useHook)
+			fresh := p2.ToGo()
+			want := compileValue(&fresh, p2, useHook)
+			if again != want {
+				restore()
+				return fail(fmt.Sprintf("history-dependence: compile, edit the same value in place (%s), compile again gives a different program than a freshly built equal value:\nreused: %s\nfresh:  %s", what, clip(again, 1500), clip(want, 1500)), again)
+			}
+			r.tag("template-reuse:ok")
+		}
+	}
 	restore()
 	// interleaving with another policy: the previous case's value, compiled again after this one
 	if pc.prevVal != nil {
